@@ -64,6 +64,8 @@ package taskpool
 
 // the built-in caller: the task behind a recover barrier; no counter traffic
 //@ func New$1
+//@   note panic containment (structural): the built-in caller runs the task alone behind a recover barrier
+//@   barrier f   // prop C19
 //@   props C19
 //@   safety index slice nil div assert panic make
 //@   assigns everything
